@@ -1,0 +1,10 @@
+//go:build verif
+
+package forkable
+
+import "github.com/streamingfast/bstream"
+
+// VerifC17ForkableObject builds a ForkableObject carrying the given step (verification harness only).
+func VerifC17ForkableObject(step bstream.StepType, obj interface{}) *ForkableObject {
+	return &ForkableObject{step: step, Obj: obj}
+}
